@@ -77,6 +77,10 @@ class HandleErr(Exception):
         self.handle = lambda: ident
 
 
+class BadArgErr(TypeError):
+    """a user exception that is a TypeError (the loop itself looks at TypeError for its path-argument compatibility retry)"""
+
+
 class MixedErr(Exception):
     """one class, instances that differ: every other instance carries something that cannot be pickled (a handle, a lock, the
     generator that failed) - whether an exception can travel is a property of the instance, not of its class"""
@@ -89,10 +93,10 @@ class MixedErr(Exception):
 # exceptions that cannot travel between processes as they are: a result may carry a stand-in that names the class
 NONPORTABLE = {'TwoArgErr': lambda i: TwoArgErr(i, 'oops'), 'KwErr': lambda i: KwErr(f'bad {i}', code=i), 'HandleErr': HandleErr, 'MixedErr': MixedErr}
 
-EXC = {'MixedErr': MixedErr, 'TwoArgErr': TwoArgErr, 'KwErr': KwErr, 'HandleErr': HandleErr,
+EXC = {'MixedErr': MixedErr, 'TypeError': TypeError, 'BadArgErr': BadArgErr, 'TwoArgErr': TwoArgErr, 'KwErr': KwErr, 'HandleErr': HandleErr,
        'ValueError': ValueError, 'KeyError': KeyError, 'LookupError': LookupError, 'ZeroDivisionError': ZeroDivisionError, 'ArithmeticError': ArithmeticError,
        'Exception': Exception, 'CustomErr': CustomErr, 'OSError': OSError, 'FileNotFoundError': FileNotFoundError}
-PARENTS = {'MixedErr': ['Exception'], 'TwoArgErr': ['Exception'], 'KwErr': ['Exception'], 'HandleErr': ['Exception'], 'KeyError': ['LookupError', 'Exception'], 'ZeroDivisionError': ['ArithmeticError', 'Exception'], 'FileNotFoundError': ['OSError', 'Exception'],
+PARENTS = {'MixedErr': ['Exception'], 'TypeError': ['Exception'], 'BadArgErr': ['TypeError', 'Exception'], 'TwoArgErr': ['Exception'], 'KwErr': ['Exception'], 'HandleErr': ['Exception'], 'KeyError': ['LookupError', 'Exception'], 'ZeroDivisionError': ['ArithmeticError', 'Exception'], 'FileNotFoundError': ['OSError', 'Exception'],
            'ValueError': ['Exception'], 'CustomErr': ['Exception'], 'LookupError': ['Exception'], 'OSError': ['Exception']}
 
 
@@ -354,7 +358,7 @@ def gen_spec(rnd, n):
     themed = rnd.random() < 0.15     # every failing payload raises the same class, with instances that can and cannot be pickled
     for _ in range(n):
         if rnd.random() < (0.7 if themed else 0.4):
-            exc = rnd.choice(['ValueError', 'KeyError', 'ZeroDivisionError', 'CustomErr', 'FileNotFoundError', 'TwoArgErr', 'KwErr', 'HandleErr', 'MixedErr'])
+            exc = rnd.choice(['ValueError', 'KeyError', 'ZeroDivisionError', 'CustomErr', 'FileNotFoundError', 'TwoArgErr', 'KwErr', 'HandleErr', 'MixedErr', 'TypeError', 'BadArgErr'])
             if themed:
                 exc = 'MixedErr'
             r = rnd.random()
